@@ -108,3 +108,47 @@ Theorem C03_event_machine_empty_alias_refuted :
   Machine.machine_validate g root v = None /\ (forall F, MachineSpec.maccepts F g root v = false).
 Proof. exact MachineProofs.machine_empty_alias_refuted. Qed.
 Print Assumptions C03_event_machine_empty_alias_refuted.
+
+(* ---------- from the TEXTS (Schema/E2ETypes.v): root text, type texts -> scanner -> loader -> the type graph; document text -> JSON
+   scanner -> events -> the event machine.  The pipeline is run against Schema.Validate on the texts of every generated graph by the
+   C03 check; here: on a closed graph in which every reference position has a validator it accepts a document text exactly when the
+   denotation of the loaded graph contains the value the text spells, and it never gets stuck. ---------- *)
+From JS Require Json.Grammar Schema.E2E Schema.E2EDocProofs Schema.E2ETypes Schema.E2ETypesProofs.
+Theorem C03_typed_texts_accept_iff_denotation : forall optd root types u1 d u2 j rt g,
+  E2ETypes.load_mnode optd (map fst types) root = inr rt ->
+  E2ETypes.load_menv optd (map fst types) 0 (map snd types) = inr g ->
+  Grammar.all_blank u1 = true -> Grammar.wf d = true -> Grammar.all_blank u2 = true -> E2EDocProofs.jval_of_jv d = Some j ->
+  MachineSpec.mclosed g rt = true -> MachineProofs.mprod g rt = true ->
+  exists F0, forall F, F0 <= F ->
+    (E2ETypes.validate_typed_texts optd root types (u1 ++ Grammar.render d ++ u2) = E2E.TVerdict None <-> MachineSpec.maccepts F g rt j = true).
+Proof. exact E2ETypesProofs.typed_texts_accept_iff_denotation. Qed.
+Print Assumptions C03_typed_texts_accept_iff_denotation.
+
+Theorem C03_typed_texts_not_stuck : forall optd root types u1 d u2 j rt g,
+  E2ETypes.load_mnode optd (map fst types) root = inr rt ->
+  E2ETypes.load_menv optd (map fst types) 0 (map snd types) = inr g ->
+  Grammar.all_blank u1 = true -> Grammar.wf d = true -> Grammar.all_blank u2 = true -> E2EDocProofs.jval_of_jv d = Some j ->
+  MachineSpec.mclosed g rt = true -> MachineProofs.mprod g rt = true ->
+  E2ETypes.validate_typed_texts optd root types (u1 ++ Grammar.render d ++ u2) <> E2E.TStuck.
+Proof. exact E2ETypesProofs.typed_texts_not_stuck. Qed.
+Print Assumptions C03_typed_texts_not_stuck.
+
+(* the hypotheses are met: root  {"k": @a | @b}  with  @a = 1,  @b = { // {additionalProperties: "string"} LF "n": @a LF } ;
+   the document texts {"k": 5}, {"k": {"n": 1, "x": "s"}} are accepted, {"k": {"n": 1, "x": 2}} is refused with 210 *)
+From Coq Require Import String.
+Local Open Scope string_scope.
+Example C03_typed_texts_example :
+  let b := Wire.of_string in
+  let types := [(b "@a", b "1"); (b "@b", (b "{ // {additionalProperties: ""string""}" ++ [x0a] ++ b "  ""n"": @a" ++ [x0a] ++ b "}")%list)] in
+  let root := b "{""k"": @a | @b}" in
+  (exists rt g, E2ETypes.load_mnode false (map fst types) root = inr rt /\
+                E2ETypes.load_menv false (map fst types) 0 (map snd types) = inr g /\
+                MachineSpec.mclosed g rt = true /\ MachineProofs.mprod g rt = true) /\
+  E2ETypes.validate_typed_texts false root types (b "{""k"": 5}") = E2E.TVerdict None /\
+  E2ETypes.validate_typed_texts false root types (b "{""k"": {""n"": 1, ""x"": ""s""}}") = E2E.TVerdict None /\
+  E2ETypes.validate_typed_texts false root types (b "{""k"": {""n"": 1, ""x"": 2}}") = E2E.TVerdict (Some 210).
+Proof.
+  cbv zeta. split.
+  - eexists. eexists. split; [vm_compute; reflexivity|]. split; [vm_compute; reflexivity|]. split; vm_compute; reflexivity.
+  - vm_compute. repeat split; reflexivity.
+Qed.
